@@ -115,7 +115,11 @@ class LoopAnalysis(object):
 
     def _add_mesh_currents(self, loop, loops, node_names, mesh_currents):
 
-        current = Itype(self.kind)(0)
+        if isinstance(self.kind, str):
+            current = Itype(self.kind)(0)
+        else:
+            # AC, kind is the angular frequency
+            current = Itype(self.kind)(0, omega=self.kind)
 
         # Find opposing currents in other meshes flowing through cpt.
         for n, loop2 in enumerate(loops):
